@@ -46,7 +46,7 @@ def obligations(tier, seed):
     for L in (0, 1, 2):
         obs.append(dict(name='base58/roundtrip/L%d/chk0' % L, kind='b58', L=L, chk=0))
     # long payloads (digit-buffer sizing: 138/100 digits per byte): all bytes 0xff (the largest value of that length), encode then decode; the last byte symbolic where that still decides
-    for L in ((24, 25, 52, 63) if tier == 'quick' else (24, 25, 37, 38, 52, 63, 93, 104, 115)): obs.append(dict(name='base58/roundtrip-long/L%d' % L, kind='b58long', L=L, symlast=0))
+    for L in ((24, 25, 52, 63) if tier == 'quick' else (24, 25, 37, 38, 52, 63, 93, 99, 100)): obs.append(dict(name='base58/roundtrip-long/L%d' % L, kind='b58long', L=L, symlast=0))          # at most 100 bytes: the shim calls the decoder with that limit, longer payloads are refused by design
     for L in ((8,) if tier == 'quick' else (8, 52)): obs.append(dict(name='base58/roundtrip-long/L%d/last-byte-symbolic' % L, kind='b58long', L=L, symlast=1))          # L = 52: 490 s
     # base58 decoding of ARBITRARY short strings (alphabet membership, leading '1's, surrounding white space, digit values), not only of encoder output
     for n in (1, 2) if tier == 'quick' else (1, 2, 3): obs.append(dict(name='base58/decode-any/n%d' % n, kind='b58dec', n=n))
